@@ -241,6 +241,8 @@ fn pick_threads(rng: &mut Rng, k: usize) -> Vec<usize> {
 /// offsets, run `webgraph-sccs` with or without `--renumber`, with `-j` threads, and read the
 /// ASCII outputs back.
 fn emit_cli(out: &mut impl Write, id: &str, kind: &str, g: &Graph, renumber: bool, threads: usize) {
+    // one run in three does not ask for the sizes file (the options are independent)
+    let with_sizes = (g.len() + num_arcs(g) + threads) % 3 != 0;
     use dsi_bitstream::prelude::BE;
     use webgraph::prelude::*;
     let dir = tempfile::Builder::new().prefix("wgverif-scc").tempdir().unwrap();
@@ -263,7 +265,8 @@ fn emit_cli(out: &mut impl Write, id: &str, kind: &str, g: &Graph, renumber: boo
     let mut sizes = String::new();
     if prep_st == "ok" {
         let mut args = vec!["webgraph-sccs".to_string(), base.display().to_string(), comp_out.display().to_string(),
-            "-s".into(), sizes_out.display().to_string(), "-j".into(), threads.to_string()];
+            "-j".into(), threads.to_string()];
+        if with_sizes { args.push("-s".into()); args.push(sizes_out.display().to_string()); }
         if renumber { args.push("-r".into()); }
         let r = catch(AssertUnwindSafe(|| webgraph_cli::sccs::cli_main(args)));
         st = match r {
@@ -279,8 +282,8 @@ fn emit_cli(out: &mut impl Write, id: &str, kind: &str, g: &Graph, renumber: boo
             sizes = rd(&sizes_out);
         }
     }
-    writeln!(out, "scccli id={id} kind={kind} n={} arcs={} g={} renumber={} j={threads} prep={prep_st} st={st} comp={comp} sizes={sizes}",
-        g.len(), num_arcs(g), fmt_lists(g), renumber as u8).unwrap();
+    writeln!(out, "scccli id={id} kind={kind} n={} arcs={} g={} renumber={} sizesopt={} j={threads} prep={prep_st} st={st} comp={comp} sizes={sizes}",
+        g.len(), num_arcs(g), fmt_lists(g), renumber as u8, with_sizes as u8).unwrap();
 }
 
 pub fn run(seed: u64, count: usize, maxn: usize, mode: &str, out: &mut impl Write) {
